@@ -137,6 +137,75 @@ def setup():
   F, G, CONSUMER, AL, DL, KCLS, Z0, ZF, KWD = f, g, consumer, al, dl, K, z0, zf, kwd
 
 
+class OddRepr:
+  def __init__(self, text):
+    self.text = text
+
+  def __repr__(self):
+    return self.text
+
+
+ODD_REPRS = ['@c07_no_such_thing()', '@c07nothere', '(1, 2', '"""abc', '@c07.g(', "[1, '", '{[1]: 2}']
+
+
+def run_odd_repr(text, res):
+  """A supplied value with no literal form is left out of the operative text, whatever its repr looks like."""
+  art = {'special': 'odd_repr', 'repr': text}
+  harness.hard_reset()
+  del REC[:]
+  res.case(('odd_repr', text), True)
+  if text != 'HUGE':          # (the probe g formats its argument itself)
+    gin.bind_parameter('c07.g.t', OddRepr(text))
+  gin.bind_parameter('c07.consumer.q', [1, OddRepr(text)] if text != 'HUGE' else [10 ** 5000])
+  gin.bind_parameter('c07.consumer.p', 'plain')
+  try:
+    gin.get_configurable('c07.g')()
+    gin.get_configurable('c07.consumer')()
+    op_text = gin.operative_config_str()
+  except Exception as e:  # pylint: disable=broad-except
+    res.violation('operative_raises_for_unrepresentable_value', 'a supplied value whose repr is %r: %r' % (text, e), art)
+    return
+  lines = [l for l in op_text.splitlines() if l and not l.startswith('#')]
+  want = ["consumer.p = 'plain'"] + (["g.t = 'gt'"] if text == 'HUGE' else [])      # (g's own default when nothing is bound)
+  if [l.replace('c07.', '') for l in lines] != want:
+    res.violation('listed_parameters', 'supplied values whose repr is %r: operative text lists %r' % (text, lines), art)
+    return
+  harness.hard_reset()
+  try:
+    gin.parse_config(op_text)
+  except Exception as e:  # pylint: disable=broad-except
+    res.violation('operative_unparseable', 'odd repr %r: %r\n%s' % (text, e, op_text), art)
+    return
+  res.w('unrepresentable_value_omitted')
+
+
+def run_singleton_replay(clear_constants, res):
+  """A singleton whose constructor is a configurable: the replay (clear, parse the operative text, same calls) runs the
+  constructor again, so its section is there again."""
+  art = {'special': 'singleton_replay', 'clear_constants': clear_constants}
+  harness.hard_reset()
+  del REC[:]
+  res.case(('singleton_replay', clear_constants), True)
+  gin.parse_config("c07.consumer.p = @shared/gin.singleton()\nshared/gin.singleton.constructor = @c07.g\nshared/c07.g.t = 'T'\n")
+  for _ in range(2):
+    gin.get_configurable('c07.consumer')()
+  first, text = list(REC), gin.operative_config_str()
+  gin.clear_config(clear_constants=clear_constants)
+  del REC[:]
+  try:
+    gin.parse_config(text)
+    for _ in range(2):
+      gin.get_configurable('c07.consumer')()
+  except Exception as e:  # pylint: disable=broad-except
+    res.violation('operative_unparseable', 'singleton replay: %r\n%s' % (e, text), art)
+    return
+  if list(REC) != first or gin.operative_config_str() != text:
+    res.violation('replay_differs', 'singleton with a configurable constructor: the first run recorded %r and\n%s\n--- the '
+                  'replay recorded %r and\n%s' % (first, text, list(REC), gin.operative_config_str()), art)
+  else:
+    res.w('singleton_constructor_replayed')
+
+
 SH = {}
 SH_WANT = {'sh_all': {'x': '1', 'y': '2', 'z': '3'}, 'sh_allow': {'x': '1'}, 'sh_deny': {'x': '1', 'z': '3'}}
 
@@ -757,6 +826,10 @@ def run(ctx):
     run_failed_macro(name, res)
   for name in DOTTED:
     run_dotted_scope(name, res)
+  for text in ODD_REPRS + ['HUGE']:
+    run_odd_repr(text, res)
+  for cc in (False, True):
+    run_singleton_replay(cc, res)
   import itertools  # pylint: disable=import-outside-toplevel
   for k in (1, 2, 3):
     for order in itertools.permutations(sorted(SH), k):
@@ -785,6 +858,16 @@ def run(ctx):
 
 
 def replay(obj):
+  if obj.get('special') == 'singleton_replay':
+    res = core.Result()
+    run_singleton_replay(obj['clear_constants'], res)
+    harness.hard_reset()
+    return res
+  if obj.get('special') == 'odd_repr':
+    res = core.Result()
+    run_odd_repr(obj['repr'], res)
+    harness.hard_reset()
+    return res
   if obj.get('special') == 'shared_function':
     res = core.Result()
     run_shared_function(obj['order'], res)
